@@ -20,9 +20,13 @@
 (*   <<"select", <<b3, b2, b1, b0>>, coremask>>                            *)
 (*   <<"data", pid, block, sizefield, <<hi16, lo16>>, nbytes, bytes>>      *)
 (*   <<"end", pid, app, flags, <<cores <<x, y, p>> the machine loaded>>>>  *)
-(*   <<"count", state, app, answer>>          core count query             *)
+(*   <<"count", state, app, answer, appmask>> core count query             *)
 (*   <<"read", x, y, p, value>>               read of vcpu[p].cpu_state    *)
-(*   <<"signal", signal, app>>                                             *)
+(*   <<"signal", signal, app, appmask>>                                    *)
+(*   (a count or signal packet addresses the cores whose application id    *)
+(*   equals the packet's in the bits set in its application mask; cores of *)
+(*   other applications may be waiting while the call runs - listed in     *)
+(*   init with their own application id)                                   *)
 (*   <<"aux", command, x, y>>                 any other command            *)
 (*   <<"final", cores not idle after the call, as in init>>                *)
 (*   <<"return">> | <<"raise", class name, <<binary index, x, y, <<cores>>>>...>> *)
@@ -81,6 +85,14 @@ ModelCommit == UNION { { <<ch[1], ch[2], p>> : p \in CommitOn(st.fl.sels, ch[1],
 SameBytes == IF st.phase # "fill" THEN {} ELSE { bn \in (1..NB) \ st.filled : Tr.bins[bn].data = st.fl.bytes }
 Matching == { bn \in SameBytes : st.expect[bn] = Sel }
 
+\* application ids ida, idb are the same under an application mask
+SameUnderMask(ida, idb, msk) == \A i \in 0..7 : Bit(msk, i) => (Bit(ida, i) <=> Bit(idb, i))
+\* the signal on one core / the count query, as packets carrying a mask
+AfterMaskedSignal(core, sig, app, msk) ==
+    IF sig = SigStart /\ core.state = StWait /\ SameUnderMask(core.app, app, msk) THEN [core EXCEPT !.state = StRun] ELSE core
+MaskedCountIn(cores, state, app, msk) ==
+    Cardinality({ c \in DOMAIN cores : cores[c].state = state /\ SameUnderMask(cores[c].app, app, msk) })
+
 Checks(e) ==
   CASE e[1] = "start" ->
         LET newAtt == st.phase \in {"idle", "verify"} IN
@@ -107,7 +119,7 @@ Checks(e) ==
          AppIdAsRequested     |-> e[3] = Tr.app,
          SimulatorCommitMatchesModel |-> SeqSet(e[5]) = ModelCommit /\ Len(e[5]) = Cardinality(ModelCommit)]
     [] e[1] = "count" ->
-        [CountAnswerMatchesModel |-> e[4] = CountIn(st.cores, e[2], e[3]),
+        [CountAnswerMatchesModel |-> e[4] = MaskedCountIn(st.cores, e[2], e[3], e[5]),
          CountNotInsideFill |-> st.phase # "fill"]
     [] e[1] = "read" ->
         [ReadAnswerMatchesModel |-> e[5] = CoreAt(<<e[2], e[3], e[4]>>).state]
@@ -171,7 +183,7 @@ Apply(e) ==
     [] e[1] \in {"count", "read"} ->
         [st EXCEPT !.phase = IF @ = "between" THEN "verify" ELSE @]
     [] e[1] = "signal" ->
-        [st EXCEPT !.cores = [c \in DOMAIN st.cores |-> AfterSignal(st.cores[c], e[2], e[3])], !.phase = "signalled"]
+        [st EXCEPT !.cores = [c \in DOMAIN st.cores |-> AfterMaskedSignal(st.cores[c], e[2], e[3], e[4])], !.phase = "signalled"]
     [] e[1] = "final" -> [st EXCEPT !.seen = TRUE]
     [] OTHER -> st
 
